@@ -4,7 +4,7 @@
    q over all quirk vectors; the renderers are the interpretation of the dict literals / f-strings that the
    translator found in src/core/cli_utils.py and src/formatters/sarif.py (Gen/OutputGen.v). *)
 From TL Require Import Lib.Base Model.OutputTypes Gen.OutputGen Model.Output Actual.OutputActual
-     Proofs.OutputStr Proofs.OutputJson Proofs.OutputText Proofs.OutputMain.
+     Proofs.OutputStr Proofs.OutputJson Proofs.OutputText Proofs.OutputSan Proofs.OutputMain.
 From Coq Require Import ZArith.
 Local Open Scope Z_scope.
 Local Open Scope string_scope.
@@ -120,6 +120,62 @@ Theorem C06_dispatch : forall q ver vs,
   /\ format_choices = ["text"; "json"; "sarif"].
 Proof. exact dispatch. Qed.
 Print Assumptions C06_dispatch.
+
+(* 9. The sanitiser (text.encode("utf-8","surrogateescape").decode("utf-8","replace") on the byte model; codec arguments from
+      the source, the byte-level function compared with CPython on generated bytes every run): identity exactly on well-formed
+      UTF-8, result always well-formed, idempotent, ASCII bytes (newline, colon, digits, quotes) neither removed nor introduced. *)
+Theorem C06_sanitize_identity_iff_wellformed : forall s, sanitize s = s <-> utf8_valid s = true.
+Proof. exact sanitize_fixpoint_iff. Qed.
+Print Assumptions C06_sanitize_identity_iff_wellformed.
+
+Theorem C06_sanitize_wellformed : forall s, utf8_valid (sanitize s) = true.
+Proof. exact sanitize_wellformed. Qed.
+Print Assumptions C06_sanitize_wellformed.
+
+Theorem C06_sanitize_idempotent : forall s, sanitize (sanitize s) = sanitize s.
+Proof. exact sanitize_idempotent. Qed.
+Print Assumptions C06_sanitize_idempotent.
+
+Theorem C06_sanitize_ascii : forall c s, is_ascii c = true -> has_char c (sanitize s) = has_char c s.
+Proof. exact sanitize_ascii. Qed.
+Print Assumptions C06_sanitize_ascii.
+
+Theorem C06_rendered_is_violation_iff_wellformed : forall v,
+  san_core v = core_of v <-> utf8_valid (v_file v) = true /\ utf8_valid (v_msg v) = true.
+Proof. exact san_core_identity_iff. Qed.
+Print Assumptions C06_rendered_is_violation_iff_wellformed.
+
+(* 10. Every quirk vector, mixed text flags included: text round trip and agreement of the three renderings on text_ok q. *)
+Theorem C06_text_roundtrip_any : forall q vs,
+  forallb (text_ok q) vs = true -> parse_text q (text_output q vs) = Some (map san_core vs).
+Proof. exact text_roundtrip_any. Qed.
+Print Assumptions C06_text_roundtrip_any.
+
+Theorem C06_renderings_agree_any : forall q ver vs,
+  forallb (text_ok q) vs = true ->
+  decode_json (render_json vs) = Some (map san_core vs, Z.of_nat (List.length (map san_core vs)))
+  /\ decode_sarif (render_sarif q ver vs) = Some (map san_core vs)
+  /\ parse_text q (text_output q vs) = Some (map san_core vs).
+Proof. exact renderings_agree_any. Qed.
+Print Assumptions C06_renderings_agree_any.
+
+(* the domain text_ok is a property of the raw violation: no newline in path / message, path not ending in `:digits` ... *)
+Theorem C06_text_domain_raw : forall q v, text_ok q v = text_ok_raw q v.
+Proof. exact text_ok_is_raw. Qed.
+Print Assumptions C06_text_domain_raw.
+
+Theorem C06_sanitize_split : forall c a d, is_ascii c = true -> sanitize (a ++ String c d) = (sanitize a ++ String c (sanitize d))%string.
+Proof. exact sanitize_split. Qed.
+Print Assumptions C06_sanitize_split.
+
+(* 11. A rule that fails while one file is linted does not end the run (exit 2 is for runs that cannot be performed). *)
+Theorem C06_run_performed : forall q files, q_valueerror_aborts_run q = false -> run_outcome q files = OPerformed.
+Proof. exact run_performed. Qed.
+Print Assumptions C06_run_performed.
+
+Theorem C06_run_performed_partial : forall q files, existsb storage_raises files = false -> run_outcome q files = OPerformed.
+Proof. exact run_performed_partial. Qed.
+Print Assumptions C06_run_performed_partial.
 
 (* non-vacuity: three violations (a repeated rule id, a non-ASCII path, quotes in a message) meet every domain
    hypothesis above under the claimed vector, and the decoded list is the expected one *)
